@@ -59,6 +59,20 @@ def go_env():
     e = {"GOFLAGS": "-mod=mod", "GOPROXY": "off"}
     for k in ("GOTOOLCHAIN", "GOSUMDB"):
         os.environ.pop(k, None)
+    # the cgo package qbe_embeddings #includes the vendored QBE sources from /repo/qbe, which Go's build
+    # cache does not track: make their content part of the cache key so edits there are always rebuilt
+    h = hashlib.sha1()
+    qdir = os.path.join(REPO, "qbe")
+    for root, dirs, files in sorted(os.walk(qdir)):
+        dirs.sort()
+        for f in sorted(files):
+            if f.endswith((".c", ".h")):
+                h.update(f.encode())
+                try:
+                    h.update(open(os.path.join(root, f), "rb").read())
+                except OSError:
+                    pass
+    e["CGO_CFLAGS"] = (os.environ.get("CGO_CFLAGS", "-g -O2") + " -DVERIF_QBE_SRC_HASH=" + h.hexdigest()[:16]).strip()
     return e
 
 
